@@ -425,6 +425,12 @@ def run_sign_artifacts(spec, rec, lib):
     ]
     for rep in range(spec["count"]):
         doc = c11.gen_doc(rng)["doc"]
+        for _try in range(50):
+            # the history scenarios below need something to re-sign: at least two artifacts, one of them with object metadata
+            arts = [md for sec in ("packages", "packages.conda") for md in doc.get(sec, {}).values()]
+            if len(arts) >= 2 and any(isinstance(md, dict) for md in arts):
+                break
+            doc = c11.gen_doc(rng)["doc"]
         for scen, keytext, should_sign in scenarios:
             for name, cmd in eps:
                 rp, kp = os.path.join(d, "repodata.json"), os.path.join(d, "key.txt")
